@@ -95,4 +95,22 @@ def trimeshScaledIdx (oriented : Bool) (s : V3 K) (idx : List (Nat × Nat × Nat
 def rewind (oriented : Bool) (s : V3 K) (a b c : V3 K) : V3 K × V3 K × V3 K :=
   if oriented && mirrors s then (b, a, c) else (a, b, c)
 
+
+/-! ### routing of `Shape::scale_dyn`, 2-D (`Ball/Capsule::scaled` test `scale.x != scale.y`) -/
+inductive Kind2 where
+  | ball | cuboid | capsule | seg | tri | hs | polygon | polyline | hf | rcuboid | rpolygon
+  | compound (parts : List Kind2)
+  deriving Repr, Inhabited
+
+mutual
+def scaleDynKind2 (s : V2 K) : Kind2 → Kind2
+  | .ball => if !(neq s.x s.y) then .polygon else .ball
+  | .capsule => if !(neq s.x s.y) then .polygon else .capsule
+  | .compound ps => .compound (scaleDynKinds2 s ps)
+  | k => k
+def scaleDynKinds2 (s : V2 K) : List Kind2 → List Kind2
+  | [] => []
+  | k :: ks => scaleDynKind2 s k :: scaleDynKinds2 s ks
+end
+
 end Model.Acc
